@@ -1,1 +1,214 @@
-(* Proto/Wire.v -- stub, to be filled *)
+(* Proto/Wire.v -- executable model of the protobuf primitive layer of asn1rs
+   (src/protocol/protobuf/mod.rs: ProtoWrite / ProtoRead over io::Write / io::Read,
+   Format, and BitVec::{to,from}_vec_with_trailing_bit_len of src/descriptor/bitstring.rs).
+
+   Bytes are [N] below 256, u64 values are [N] below 2^64, i32/i64 values are [Z].
+   Readers work on a byte list (the `&[u8]` that implements io::Read) and return the
+   value and the unread rest.  Every partial Rust operation is explicit. *)
+From A1 Require Export Base.Word.
+Require Import ZifyBool ZifyNat ZifyN.
+Local Open Scope N_scope.
+
+(** * Error kinds (variants of protobuf::Error, payloads dropped) *)
+Definition E_IO : N := 1.                (* Error::Io (read_exact past the end, WriteZero) *)
+Definition E_UTF8 : N := 2.              (* InvalidUtf8Received *)
+Definition E_MISSING : N := 3.           (* MissingRequiredField *)
+Definition E_INVALID_TAG : N := 4.       (* InvalidTagReceived *)
+Definition E_INVALID_FORMAT : N := 5.    (* InvalidFormat *)
+Definition E_INVALID_VARIANT : N := 6.   (* InvalidVariant *)
+Definition E_UNEXPECTED_FORMAT : N := 7. (* UnexpectedFormat *)
+Definition E_UNEXPECTED_TAG : N := 8.    (* UnexpectedTag *)
+
+Definition two32 : N := 4294967296.
+Definition two31 : N := 2147483648.
+Definition usize_max : N := two64 - 1.
+
+(** * Format (wire type) *)
+Inductive format := VarInt | Fixed64 | LengthDelimited | Fixed32.
+Definition format_code (f : format) : N :=
+  match f with VarInt => 0 | Fixed64 => 1 | LengthDelimited => 2 | Fixed32 => 5 end.
+(* Format::from *)
+Definition format_from (id : N) : res format :=
+  match id with
+  | 0 => Ok VarInt | 1 => Ok Fixed64 | 2 => Ok LengthDelimited | 5 => Ok Fixed32
+  | _ => Err E_INVALID_FORMAT
+  end.
+Definition format_eqb (a b : format) : bool := format_code a =? format_code b.
+
+(** * Varints *)
+(* write_varint: while value > 0x7F { write (value as u8 & 0x7F) | 0x80; value >>= 7 } write value as u8.
+   A u64 needs at most 10 rounds; the fuel is never exhausted for v < 2^64
+   (consequence of [write_varint_fuel_enough] in Proofs.v). *)
+Fixpoint write_varint_fuel (fuel : nat) (v : N) : list N :=
+  match fuel with
+  | O => []
+  | S f => if 127 <? v then (v mod 128 + 128) :: write_varint_fuel f (v / 128) else [v]
+  end.
+Definition write_varint (v : N) : list N := write_varint_fuel 10 v.
+
+(* read_varint: value = 0; shift = 0; while shift < 64 { b = read_u8()?; value |= u64::from(b & 0x7F) << shift;
+   shift += 7; if b & 0x80 == 0 { break } } Ok(value).
+   `<<` on u64 with shift < 64 never panics; bits shifted beyond bit 63 are lost (shift = 63).
+   After ten continuation bytes the loop condition ends the loop without an error.
+   The fuel (11 > number of admissible shifts) is never exhausted. *)
+Fixpoint read_varint_loop (fuel : nat) (value shift : N) (bs : list N) : res (N * list N) :=
+  match fuel with
+  | O => Panic P_OTHER
+  | S f =>
+      if shift <? 64 then
+        match bs with
+        | [] => Err E_IO
+        | b :: rest =>
+            let value' := N.lor value ((N.land b 127 * 2 ^ shift) mod two64) in
+            if N.land b 128 =? 0 then Ok (value', rest)
+            else read_varint_loop f value' (shift + 7) rest
+        end
+      else Ok (value, bs)
+  end.
+Definition read_varint (bs : list N) : res (N * list N) := read_varint_loop 11 0 0 bs.
+
+(** * Integer casts *)
+Definition u32_of_u64 (n : N) : N := n mod two32.                        (* `as u32` *)
+Definition i32_wrap (z : Z) : Z := ((z + Z.of_N two31) mod Z.of_N two32 - Z.of_N two31)%Z. (* `as i32` *)
+Definition i64_wrap (z : Z) : Z := i64_of_u64 (u64_of_i64 z).            (* `as i64` *)
+Definition is_i32 (z : Z) : Prop := (- Z.of_N two31 <= z < Z.of_N two31)%Z.
+
+(** * Zig-zag *)
+(* write_sint32: ((value << 1) ^ (value >> 31)) as u64 -- i32 arithmetic, then sign-extending cast *)
+Definition zz32 (v : Z) : N :=
+  u64_of_i64 (Z.lxor (i32_wrap (v * 2)) (if (v <? 0)%Z then (-1) else 0)%Z).
+(* write_sint64: ((value << 1) ^ (value >> 63)) as u64 *)
+Definition zz64 (v : Z) : N :=
+  u64_of_i64 (Z.lxor (i64_wrap (v * 2)) (if (v <? 0)%Z then (-1) else 0)%Z).
+(* read_sint32: value = varint as u32; ((value >> 1) as i32) ^ (-((value & 1) as i32)) *)
+Definition unzz32 (n : N) : Z :=
+  let value := u32_of_u64 n in
+  Z.lxor (i32_wrap (Z.of_N (value / 2))) (- Z.of_N (N.land value 1))%Z.
+(* read_sint64: ((value >> 1) as i64) ^ (-((value & 1) as i64)) *)
+Definition unzz64 (n : N) : Z :=
+  Z.lxor (i64_wrap (Z.of_N (n / 2))) (- Z.of_N (N.land n 1))%Z.
+
+(** * Tags *)
+(* write_tag: write_varint(u64::from(field << 3 | format as u32)); u32 `<<` drops the high bits silently *)
+Definition tag_word (field : N) (f : format) : N := N.lor ((field * 8) mod two32) (format_code f).
+Definition write_tag (field : N) (f : format) : list N := write_varint (tag_word field f).
+(* read_tag: tag = varint as u32; format = Format::from(tag & 7)?; field = tag >> 3 *)
+Definition read_tag (bs : list N) : res (N * format * list N) :=
+  let! (v, rest) := read_varint bs in
+  let tag := u32_of_u64 v in
+  let! f := format_from (N.land tag 7) in
+  Ok (tag / 8, f, rest).
+
+(** * Scalars on top of varints *)
+Definition write_bool (b : bool) : list N := write_varint (if b then 1 else 0).
+Definition read_bool (bs : list N) : res (bool * list N) :=
+  let! (v, rest) := read_varint bs in Ok (negb (v =? 0), rest).
+Definition write_uint32 (v : N) : list N := write_varint v.
+Definition read_uint32 (bs : list N) : res (N * list N) :=
+  let! (v, rest) := read_varint bs in Ok (u32_of_u64 v, rest).
+Definition write_uint64 (v : N) : list N := write_varint v.
+Definition read_uint64 := read_varint.
+Definition write_sint32 (v : Z) : list N := write_varint (zz32 v).
+Definition read_sint32 (bs : list N) : res (Z * list N) :=
+  let! (v, rest) := read_varint bs in Ok (unzz32 v, rest).
+Definition write_sint64 (v : Z) : list N := write_varint (zz64 v).
+Definition read_sint64 (bs : list N) : res (Z * list N) :=
+  let! (v, rest) := read_varint bs in Ok (unzz64 v, rest).
+Definition write_enum_variant (v : N) : list N := write_varint v.   (* u64::from(u32) *)
+Definition read_enum_variant := read_uint32.
+
+(** * Fixed32 (little endian; not used by the Reader/Writer layer, kept for the primitive tie) *)
+Definition le_bytes (k : nat) (v : N) : list N := rev (be_bytes k v).
+Definition of_le (l : list N) : N := of_be (rev l).
+Definition write_sfixed32 (v : Z) : list N := le_bytes 4 (Z.to_N (v mod Z.of_N two32)).
+Definition read_exact (k : nat) (bs : list N) : res (list N * list N) :=
+  if (length bs <? k)%nat then Err E_IO else Ok (firstn k bs, skipn k bs).
+Definition read_sfixed32 (bs : list N) : res (Z * list N) :=
+  let! (b, rest) := read_exact 4 bs in Ok (i32_wrap (Z.of_N (of_le b)), rest).
+
+(** * Length-delimited *)
+(* write_bytes: varint(len) ++ bytes *)
+Definition write_bytes (bs : list N) : list N := write_varint (N.of_nat (length bs)) ++ bs.
+(* read_bytes: read_to_end -- NO length prefix is consumed here (the Reader layer slices first) *)
+Definition read_bytes (bs : list N) : res (list N * list N) := Ok (bs, []).
+
+(** UTF-8 validity as decided by String::from_utf8 (core::str::run_utf8_validation):
+    shortest form only, no surrogates, at most U+10FFFF. *)
+Definition in_range (lo hi b : N) : bool := (lo <=? b) && (b <=? hi).
+Fixpoint utf8_valid_fuel (fuel : nat) (bs : list N) : bool :=
+  match fuel with
+  | O => false
+  | S f =>
+      match bs with
+      | [] => true
+      | b0 :: r0 =>
+          if b0 <? 128 then utf8_valid_fuel f r0
+          else if in_range 194 223 b0 then
+            match r0 with
+            | b1 :: r1 => in_range 128 191 b1 && utf8_valid_fuel f r1
+            | _ => false end
+          else if in_range 224 239 b0 then
+            match r0 with
+            | b1 :: b2 :: r2 =>
+                (if b0 =? 224 then in_range 160 191 b1
+                 else if b0 =? 237 then in_range 128 159 b1
+                 else in_range 128 191 b1)
+                && in_range 128 191 b2 && utf8_valid_fuel f r2
+            | _ => false end
+          else if in_range 240 244 b0 then
+            match r0 with
+            | b1 :: b2 :: b3 :: r3 =>
+                (if b0 =? 240 then in_range 144 191 b1
+                 else if b0 =? 244 then in_range 128 143 b1
+                 else in_range 128 191 b1)
+                && in_range 128 191 b2 && in_range 128 191 b3 && utf8_valid_fuel f r3
+            | _ => false end
+          else false
+      end
+  end.
+Definition utf8_valid (bs : list N) : bool := utf8_valid_fuel (S (length bs)) bs.
+
+Definition write_string (s : list N) : list N := write_bytes s.
+Definition read_string (bs : list N) : res (list N * list N) :=
+  if utf8_valid bs then Ok (bs, []) else Err E_UTF8.
+
+(** * BitVec with trailing bit length *)
+(* to_vec_with_trailing_bit_len / the body of write_bit_string:
+     value[..(bit_len as usize + 7) / 8].to_vec() ++ bit_len.to_be_bytes()
+   `bit_len as usize + 7` overflows for bit_len > 2^64 - 8 (dev: panic, release: wraps);
+   the slice panics when fewer bytes than needed are present. *)
+Definition bitvec_payload (m : mode) (bytes : list N) (bit_len : N) : res (list N) :=
+  let! sum := (if usize_max <? bit_len + 7
+               then (if overflow_checks m then Panic P_ARITH else Ok ((bit_len + 7) mod two64))
+               else Ok (bit_len + 7)) in
+  if N.of_nat (length bytes) <? sum / 8 then Panic P_SLICE_RANGE
+  else Ok (firstn (N.to_nat (sum / 8)) bytes ++ be_bytes 8 bit_len).
+
+(* from_vec_with_trailing_bit_len: bytes_position = bytes.len() - 8  (usize subtraction: panics in dev
+   when fewer than 8 bytes are there; wraps in release and then `&bytes[bytes_position..]` panics) *)
+Definition bitvec_from_trailing (m : mode) (bytes : list N) : res (list N * N) :=
+  let len := length bytes in
+  if (len <? 8)%nat then
+    (if overflow_checks m then Panic P_ARITH else Panic P_SLICE_RANGE)
+  else Ok (firstn (len - 8) bytes, of_be (skipn (len - 8) bytes)).
+
+(* ProtoRead::read_bit_vec *)
+Definition read_bit_vec (m : mode) (bs : list N) : res ((list N * N) * list N) :=
+  let! (b, rest) := read_bytes bs in
+  let! bv := bitvec_from_trailing m b in
+  Ok (bv, rest).
+
+(* BitVec::from_bytes (used by callers to build a value; normalises) *)
+Definition bitvec_from_bytes (bytes : list N) (bit_len : N) : list N * N :=
+  let have := N.of_nat (length bytes) * 8 in
+  if have <? bit_len then
+    (bytes ++ repeat 0 (N.to_nat ((bit_len + 7) / 8) - length bytes), bit_len)
+  else if have =? bit_len then (bytes, bit_len)
+  else
+    let mask := 255 / 2 ^ (bit_len mod 8) in
+    let idx := N.to_nat (bit_len / 8) in
+    (firstn idx bytes ++
+      match skipn idx bytes with
+      | b :: r => N.land b (255 - mask) :: r
+      | [] => []
+      end, bit_len).
